@@ -79,7 +79,9 @@ def optNatToStr : Option Nat → String
     `c06tab <method>` → the tableau: rows of a separated by `;`, then b, c, b_star
     `c06seq <method> <step> <tol> <k> <bodies…> <operations…>` → the replies of a history on one object `KeplerNum(step, bodies, method=, tol=)`, separated by ` ; `
     `c06iter <epoch> <start> <stop> <datesGiven> <stepGiven> <listening> <real steps…>` (µs; flags 0/1) →
-       `<pos dates|none> <main dates> <interp> <order pos> <order main> <calls>` | `fuel` (`KeplerNum._iter` bookkeeping) -/
+       `<pos dates|none> <main dates> <interp> <order pos> <order main> <calls>` | `fuel` (`KeplerNum._iter` bookkeeping)
+    `c06graph <recv> <next> <n1> <n2> …` → identities of the propagators of the points of successive outputs of `n1`, `n2`, … points
+    `c06reqs <k> <p0 … pk-1> <c|n|p><i> …` → which orbit's trajectory each consume (`n`) / propagate (`p`) returns, orbit `i` carrying the propagator `pi` (identities from `c06graph`) -/
 def handle : List String → Option String
   | "c06seq" :: method :: rest => some <|
     match takeFloats 2 rest with
@@ -94,6 +96,29 @@ def handle : List String → Option String
           | none => "bad-op"
           | some ops => joinWith " ; " (seqToStrs (Cfg.init step bodies method tol) ops)
     | _ => "bad-op"
+  | "c06graph" :: rest => some <|
+    match rest.mapM String.toNat? with
+    | some (recv :: next :: ns) => joinWith " ; " ((KNIter.outputsProps recv next ns).map (fun l => joinWith "," (l.map toString)))
+    | _ => "bad-op"
+  | "c06reqs" :: k :: rest => some <|
+    let parse : String → Option KNIter.Req := fun t =>
+      match t.toList with
+      | 'c' :: d => (String.ofList d).toNat?.map KNIter.Req.create
+      | 'n' :: d => (String.ofList d).toNat?.map KNIter.Req.consume
+      | 'p' :: d => (String.ofList d).toNat?.map KNIter.Req.propagate
+      | _ => none
+    match k.toNat? with
+    | none => "bad-op"
+    | some k =>
+      match (rest.take k).mapM String.toNat?, (rest.drop k).mapM parse with
+      | some ps, some rs =>
+        if rest.length < k then "bad-op"
+        else if KNIter.wellFormed [] rs then
+          -- orbit `i` carries the propagator `ps[i]`; an orbit outside the list gets a propagator of its own
+          joinWith " " ((KNIter.runReqs (fun i => (ps[i]?).getD (1000000 + i)) (fun _ => none) rs).map
+            (fun r => match r with | some i => toString i | none => "unbound"))
+        else "ill-formed"
+      | _, _ => "bad-op"
   | "c06iter" :: rest => some <|
     match takeInts 6 rest with
     | some ([epoch, start, stop, dg, sg, ls], rs) =>
